@@ -172,3 +172,86 @@ def perturb_master(rng, glyphs, palette=PALETTE, change_2x2=0.15, drop=0.0):
             continue
         return out
     raise RuntimeError("could not perturb")
+
+
+# ---------------------------------------------------------------------------------------------
+# "rich" UFOs: glyphs with code points, anchors, kerning, groups, features -- used by the purity,
+# layout and variable-font checks.
+
+LATIN = [("A", 0x41), ("B", 0x42), ("V", 0x56), ("o", 0x6F), ("a", 0x61), ("e", 0x65), ("period", 0x2E), ("one", 0x31)]
+MARKS = [("acutecomb", 0x301), ("gravecomb", 0x300), ("dotbelowcomb", 0x323)]
+
+
+def _box(x0, y0, w, h):
+    return [[x0 * PS, y0 * PS, "line"], [(x0 + w) * PS, y0 * PS, "line"], [(x0 + w) * PS, (y0 + h) * PS, "line"],
+            [x0 * PS, (y0 + h) * PS, "line"]]
+
+
+def _blob(rng, x0, y0):
+    c = [[x0 * PS, y0 * PS, "line"], [(x0 + 100) * PS, y0 * PS, "line"],
+         [(x0 + 160) * PS + PS // 2, (y0 + 40) * PS, "off"], [(x0 + 160) * PS, (y0 + 120) * PS, "off"],
+         [(x0 + 100) * PS, (y0 + 200) * PS, "curve"], [x0 * PS, (y0 + 200) * PS + PS // 2, "line"]]
+    return c
+
+
+def rich_ufo(rng, kerning=True, anchors=True, features=True, composites=True, family="Test Family", style="Regular"):
+    glyphs = {}
+    order = []
+    for name, cp in LATIN:
+        g = {"cs": [_blob(rng, rng.randint(10, 60), 0) if rng.random() < 0.6 else _box(rng.randint(10, 60), 0, rng.randint(100, 300), rng.randint(300, 700))],
+             "comps": [], "anchors": [], "w": rng.randint(300, 700) * PS + rng.choice([0, PS // 2]), "h": 0, "u": [cp]}
+        if anchors and name in ("A", "o", "a", "e"):
+            g["anchors"].append({"n": "top", "x": rng.randint(100, 300) * PS + rng.choice([0, PS // 2]), "y": rng.randint(500, 750) * PS})
+            g["anchors"].append({"n": "bottom", "x": rng.randint(100, 300) * PS, "y": -rng.randint(0, 50) * PS})
+        glyphs[name] = g
+        order.append(name)
+    for name, cp in MARKS:
+        g = {"cs": [_box(-80, 550 if name != "dotbelowcomb" else -150, 60, 60)], "comps": [], "anchors": [], "w": 0, "h": 0, "u": [cp]}
+        if anchors:
+            if name == "dotbelowcomb":
+                g["anchors"].append({"n": "_bottom", "x": -50 * PS, "y": -60 * PS})
+            else:
+                g["anchors"].append({"n": "_top", "x": -50 * PS + rng.choice([0, PS // 2]), "y": 540 * PS})
+                g["anchors"].append({"n": "top", "x": -50 * PS, "y": 700 * PS})
+        glyphs[name] = g
+        order.append(name)
+    if composites:
+        glyphs["aacute"] = {"cs": [], "comps": [{"b": "a", "m": [64, 0, 0, 64], "d": [0, 0]},
+                                               {"b": "acutecomb", "m": [64, 0, 0, 64], "d": [rng.randint(200, 300) * PS, rng.randint(0, 20) * PS]}],
+                            "anchors": [], "w": glyphs["a"]["w"], "h": 0, "u": [0xE1]}
+        glyphs["a.alt"] = {"cs": [_box(20, 0, 200, 400)], "comps": [], "anchors": [], "w": 450 * PS, "h": 0, "u": []}
+        order += ["aacute", "a.alt"]
+    ufo = {"glyphs": glyphs, "order": order,
+           "info": {"unitsPerEm": 1000, "ascender": 800, "descender": -200, "xHeight": 500, "capHeight": 700,
+                    "familyName": family, "styleName": style}}
+    if kerning:
+        ufo["groups"] = [["public.kern1.O", ["o", "e"]], ["public.kern2.O", ["o", "e"]], ["public.kern1.A", ["A"]],
+                         ["public.kern2.A", ["A", "a"]]]
+        ufo["kerning"] = [["A", "V", -rng.randint(20, 90) * 4 - 2], ["V", "public.kern2.O", -rng.randint(10, 60) * 4],
+                          ["public.kern1.O", "public.kern2.A", rng.randint(-30, 30) * 4 + 1], ["V", "period", -80 * 4],
+                          ["public.kern1.O", "V", -30 * 4], ["one", "one", 20 * 4]]
+        ufo["kernScale"] = 4
+    if features:
+        ufo["fea"] = ("languagesystem DFLT dflt;\nlanguagesystem latn dflt;\n"
+                      + ("feature ss01 { sub a by a.alt; } ss01;\n" if composites else ""))
+    return ufo
+
+
+def rich_family(rng, n_masters=2, axes=1, **kw):
+    """Compatible 2-3 master family on a 'Weight' axis (and optionally 'Width')."""
+    base = rich_ufo(rng, style="Regular", **kw)
+    masters = [{"loc": {"Weight": 400}, "ufo": base, "name": "Regular"}]
+    locs = [{"Weight": 700}] if n_masters == 2 else [{"Weight": 700}, {"Weight": 550}]
+    import copy
+
+    for k, loc in enumerate(locs):
+        m = copy.deepcopy(base)
+        m["glyphs"] = perturb_master(rng, base["glyphs"], change_2x2=0.0)
+        m["info"]["styleName"] = f"Bold{k}"
+        if "kerning" in m:
+            m["kerning"] = [[l, r, v + rng.randint(-20, 20) * 4] for l, r, v in m["kerning"]]
+            if rng.random() < 0.5 and len(m["kerning"]) > 2:
+                m["kerning"].pop(rng.randrange(len(m["kerning"])))   # a pair present in one master only
+        masters.append({"loc": loc, "ufo": m, "name": f"Bold{k}"})
+    fam = {"axes": [{"name": "Weight", "tag": "wght", "min": 400, "default": 400, "max": 700}], "masters": masters}
+    return fam
